@@ -9,7 +9,10 @@ import Bng.Model.TeardownMonitor
     mk s1 m1 auth|unauth ip|noip           => ok id=<id> <snapshot>
     padt s1 m2 | term s1 | termid <id> | termmac m1 | termuser u1 | termall   => <snapshot>
     tpark A s1 => parked|done <snapshot>      tresume A => done <snapshot>   (a TerminateSession call held inside its PADT)
-    snapshot: stops=<s1:n,…|-> ebpf=<…> padt=<…> held=<s1,…|-> sess=<id:s1,…|->
+    fault ebpf on|off|once                 => <snapshot>   (the eBPF-map callback returns an error: always / never / next call)
+    snapshot: stops=<s1:n,…|-> ebpf=<…> padt=<…> held=<s1,…|-> sess=<id:s1,…|-> efail=<s1:n,…|-> fp=<s1,…|->
+      ebpf = callback calls that removed the session's fast-path entry, efail = calls that returned an error,
+      fp = sessions whose fast-path entry is present
 -/
 namespace Bng.Drv.TeardownDrv
 open Bng Bng.Drv Bng.Teardown Bng.TeardownMon
@@ -30,7 +33,9 @@ def showSnap (s : TD) : String :=
   let ids := sortNat (s.live.map (·.1))
   let ss := if ids.isEmpty then "-" else
     ",".intercalate (ids.map fun id => s!"{id}:s{(AMap.lookup s.live id).getD 0}")
-  s!"stops={showCounts s.stops} ebpf={showCounts s.ebpf} padt={showCounts s.padt} held={h} sess={ss}"
+  let fps := sortNat s.fp
+  let fp := if fps.isEmpty then "-" else ",".intercalate (fps.map fun n => s!"s{n}")
+  s!"stops={showCounts s.stops} ebpf={showCounts s.ebpf} padt={showCounts s.padt} held={h} sess={ss} efail={showCounts s.efail} fp={fp}"
 
 def tagOf (t : String) : Option Nat :=
   match t with | "A" => some 0 | "B" => some 1 | _ => none
@@ -49,6 +54,9 @@ def parseOp (toks : List String) : Option Op :=
   | ["authfail", n] => (parseTagged 's' n).map .authFail
   | ["tpark", t, n] => do let t ← tagOf t; let n ← parseTagged 's' n; pure (.tpark t n)
   | ["tresume", t] => (tagOf t).map .tresume
+  | ["fault", "ebpf", "on"] => some (.fault .on)
+  | ["fault", "ebpf", "off"] => some (.fault .off)
+  | ["fault", "ebpf", "once"] => some (.fault .once)
   | _ => none
 
 /-! ### the string layer of the monitor: the observation line → `TeardownMon.Obs`
@@ -76,6 +84,7 @@ def parseSess (s : String) : List Nat :=
 
 def parseObs (impl : String) : Obs :=
   { stops := parseCounts (field impl "stops"), ebpf := parseCounts (field impl "ebpf"), padt := parseCounts (field impl "padt"),
+    efail := parseCounts (field impl "efail"), fp := parseNames (field impl "fp"),
     held := parseNames (field impl "held"), live := parseSess (field impl "sess"), parked := impl.startsWith "parked" }
 
 def monitor (mn : Mon) (op : Op) (impl : String) : Mon × List (String × String × String) :=
@@ -85,6 +94,7 @@ def monitor (mn : Mon) (op : Op) (impl : String) : Mon × List (String × String
 def sameObs (a b : Obs) : Bool :=
   let sp := fun (l : List (Nat × Nat)) => sortNat (l.map fun p => p.1 * 1000003 + p.2)
   sp a.stops == sp b.stops && sp a.ebpf == sp b.ebpf && sp a.padt == sp b.padt &&
+  sp a.efail == sp b.efail && sortNat a.fp == sortNat b.fp &&
   sortNat a.held == sortNat b.held && sortNat a.live == sortNat b.live && a.parked == b.parked
 
 structure St where
